@@ -476,6 +476,25 @@ class Interp(object):
                 if grp:
                     self._alias_update(tgt, v, s, ctx, st)
                 return [s]
+            # receiver-mutating ndarray methods used as statements: x.sort(), x.fill(v)
+            if isinstance(call.func, ast.Attribute) and isinstance(call.func.value, ast.Name) and call.func.attr in ("sort", "fill") \
+                    and isinstance(s.env.get(call.func.value.id), Rat):
+                nm = call.func.value.id
+                cur = s.env[nm]
+                if call.func.attr == "sort":
+                    axv = None
+                    for k_ in call.keywords:
+                        if k_.arg == "axis":
+                            axv = self.ev(k_.value, s.env, ctx)
+                    new = Rat.atom(Fn("sort", (cur,) if axv is None else (cur, ("kw:axis", axv))))
+                else:
+                    new = self.ev(call.args[0], s.env, ctx) if call.args else unk("fill")
+                self.store_log.append((ctx.finfo.fq, nm, "inplace", new, st.lineno, call.func.attr, norm_text(st)))
+                s.env[nm] = new
+                if nm in ctx.finfo.params:
+                    ctx.mutated[nm] = new
+                self._alias_update(nm, new, s, ctx, st)
+                return [s]
             self.ev(st.value, s.env, ctx, stmt_call=True)
         return [s]
 
@@ -1365,6 +1384,9 @@ class Interp(object):
                 # the trailing k extents: shape[-k:]  ->  (shape[-k], ..., shape[-1])
                 if isinstance(lo, int) and lo < 0 and hi is None and stp in (None, 1):
                     return tuple(self.shape_elem(o.v, i) for i in range(lo, 0))
+                # the leading k extents: shape[:k]  ->  (shape[0], ..., shape[k-1])  (batch axes first, for a stack)
+                if (lo is None or lo == 0) and isinstance(hi, int) and hi > 0 and stp in (None, 1):
+                    return tuple(self.shape_elem(o.v, i) for i in range(0, hi))
             return Rat.atom(Fn("shape", (o.v, idx)))
         if isinstance(o, SeqList) and isinstance(idx, Rat):
             got = self.seq_read(o, idx)
@@ -2454,6 +2476,20 @@ def _map_coordinates(I, a, k, e, env, ctx):
         return Rat.atom(Fn("map_coordinates", (a[0], tuple(a[1]) if isinstance(a[1], (list, tuple)) else a[1],
                                                _vk(k.get("order", 3)), _vk(k.get("mode", "constant")))))
     return NotImplemented
+
+
+@ext("numpy.cbrt")
+def _cbrt(I, a, k, e, env, ctx):
+    if len(a) == 1 and isinstance(a[0], Rat):
+        return rpow(a[0], Fraction(1, 3))
+    return NotImplemented
+
+
+@ext("numpy.add.reduceat", "numpy.searchsorted", "numpy.bincount", "numpy.cumsum", "numpy.take", "numpy.diff")
+def _named_exact(I, a, k, e, env, ctx):
+    # fully understood library routines without an algebraic normal form: a named atom (never an unknown `?` atom)
+    nm = ".".join(norm_text(e.func).split(".")[-2:]) if "reduceat" in norm_text(e.func) else norm_text(e.func).split(".")[-1]
+    return Rat.atom(Fn(nm, tuple(_vk(x) for x in a) + tuple(("kw:" + kk, _vk2(v)) for kk, v in sorted(k.items()))))
 
 
 @ext("numpy.roll")
